@@ -119,6 +119,11 @@ def main():
     finally:
         run(["git", "-C", "/repo", "worktree", "remove", "--force", wt])
         shutil.rmtree(wt, ignore_errors=True)
+        # build output and scratch evidence of this target
+        tag = "alt-" + os.path.basename(wt)
+        for f in glob.glob(os.path.join(VERIF, "bin", "sim-" + tag + "*")) + glob.glob(os.path.join(VERIF, "bin", tag + ".*")):
+            os.remove(f)
+        shutil.rmtree(os.path.join(VERIF, "bin", tag), ignore_errors=True)
 
 
 if __name__ == "__main__":
